@@ -472,6 +472,18 @@ func ruleW2(c *Ctx, id string) {
 	}
 	check(addName, addNameDir, add, "Dcache.Add")
 	check(remName, remNameDir, del, "Dcache.Del")
+	// mkDcache enumerates with dir.Apply (whose limits it sets beyond reach), not with a paging scanner
+	apply := c.fn(id, "dir.Apply")
+	if apply != nil {
+		calls := P.CallsIn(mk, funcIs(apply))
+		okLim := len(calls) == 1
+		if okLim {
+			k, isk := constIntDeep(argN(calls[0], 4))
+			st, iss := constIntDeep(argN(calls[0], 2))
+			okLim = isk && k >= 100000000 && iss && st == 0
+		}
+		R.Check(okLim, id, "dir.mkDcache|enumerates the whole directory", P.Pos(mk.Pos()), "the name cache is rebuilt by dir.Apply from offset 0 with a size limit no directory can reach", "Apply(dip, op, 0, dip.Size, >=1e8, ...)", "the cache is rebuilt by a scanner that can stop early (page limits): names at the end of a large directory are missing after a restart or eviction")
+	}
 	// mkDcache: callback passes name/inum/off through unchanged
 	for _, b := range mk.Blocks {
 		for _, in := range b.Instrs {
